@@ -111,6 +111,9 @@ func c14Check(c C14Case) (r evid.Result) {
 	}
 	faultApplied := c.Fault
 	faultInSelection := false
+	// faultAtStart: the fault sits in front of the first record of its container (or at its
+	// open): even a query that needs a single record has to look there to know which is first.
+	faultAtStart := c.Fault == "list"
 	totalLines := 0
 	for i, lines := range c.Ctrs {
 		ct := dl.Ctr(fmt.Sprintf("id%d", i), fmt.Sprintf("c%d", i), nil, lines)
@@ -122,18 +125,22 @@ func c14Check(c C14Case) (r evid.Result) {
 			switch c.Fault {
 			case "open":
 				ct.OpenErr = true
+				faultAtStart = true
 			case "read":
 				ct.ReadErrAt = 0
 				if len(ct.Log) > 0 {
 					ct.ReadErrAt = c.FaultPos % (len(ct.Log) + 1)
 				}
+				faultAtStart = ct.ReadErrAt == 0
 			default:
 				if len(lines) == 0 {
 					ct.OpenErr = true
 					faultApplied = "open"
+					faultAtStart = true
 					break
 				}
 				k := c.FaultPos % len(lines)
+				faultAtStart = k == 0
 				var stream []byte
 				for j, l := range lines {
 					ts := time.Unix(0, l.TS).UTC().Format(time.RFC3339Nano)
@@ -208,7 +215,8 @@ func c14Check(c C14Case) (r evid.Result) {
 	// (a) a fault inside the data the query must read surfaces as an error.
 	// A construct that is not implemented fails before any data is read; were it implemented,
 	// the fault would have to surface. Either way an error is fine, success only without a fault.
-	mustReach := faultInSelection && c.Shape != "log-limit" && !mustFail
+	mustReach := faultInSelection && (c.Shape != "log-limit" || faultAtStart) && !mustFail
+	r.Class(c.Shape == "log-limit" && faultInSelection && faultAtStart, "limited-query-fault-before-the-first-record")
 	switch {
 	case mustFail && err == nil:
 		r.Violation = evid.Viol("C14/invalid-query-accepted", "%s: evaluation succeeded", what)
@@ -256,6 +264,9 @@ func c14Gen(t *rapid.T) C14Case {
 	}
 	c.Fault = rapid.SampledFrom([]string{"", "", "list", "open", "open", "read", "read", "truncate-body", "badts", "nosep", "syserr"}).Draw(t, "fault")
 	c.FaultCtr = rapid.IntRange(0, n-1).Draw(t, "fault-ctr")
+	if rapid.IntRange(0, 3).Draw(t, "fault-before-the-first-record") == 0 {
+		c.FaultPos = 0
+	}
 	if rapid.Bool().Draw(t, "classified-error") {
 		// What fails is not always a plain error: a 404 of the daemon, a cancelled context, a
 		// connection that went away. None of them is "nothing to read".
